@@ -108,6 +108,11 @@ class LRTDP(Plans):
             policy_dict[s] = self.policy(mdp, s)
             for a in mdp.actions(s):
                 q_values[s][a] = self.Q(mdp, s, a)
+        # states labelled solved without ever being updated have no stored value;
+        # the labelling verified the first maximiser in their stored action order
+        for s in self.res.action_orders:
+            if s not in policy_dict:
+                policy_dict[s] = self.policy(mdp, s)
         res.Q = q_values
 
         @FunctionalPolicy
